@@ -375,6 +375,7 @@ theorem depth_node_succ (g : Grammar) (dec : Decider) (fuel : Nat)
     cases mh <;> dsimp only at h
     case depIntRangeLo => exact absurd rfl hisdep
     case depIntRangeHi => exact absurd rfl hisdep
+    case depIntRangeSpan => exact absurd rfl hisdep
     case depListSize => exact absurd rfl hisdep
     case depVarFrom => exact absurd rfl hisdep
     case intRange =>
@@ -689,6 +690,7 @@ theorem createNode_ctx (g : Grammar) (dec : Decider) (fuel : Nat) (ty : Ty) (ctx
       cases mh <;> dsimp only at h
       case depIntRangeLo => exact absurd rfl hisdep
       case depIntRangeHi => exact absurd rfl hisdep
+      case depIntRangeSpan => exact absurd rfl hisdep
       case depListSize => exact absurd rfl hisdep
       case depVarFrom => exact absurd rfl hisdep
       case intRange =>
@@ -956,6 +958,7 @@ theorem budget_node_succ (g : Grammar) (dec : Decider) (fuel : Nat)
     cases mh <;> dsimp only at h
     case depIntRangeLo => exact absurd rfl hisdep
     case depIntRangeHi => exact absurd rfl hisdep
+    case depIntRangeSpan => exact absurd rfl hisdep
     case depListSize => exact absurd rfl hisdep
     case depVarFrom => exact absurd rfl hisdep
     case intRange =>
